@@ -124,7 +124,7 @@ Proof.
   destruct (digits_of_spec (Z.abs v) (Z.abs_nonneg v)) as (Hne & Hd & Hval & _).
   set (ds := digits_of (Z.abs v)) in *.
   unfold parse_int, fmt_int. fold ds.
-  rewrite last_is_digit_chars by assumption. cbn [negb].
+  cbv zeta. rewrite last_is_digit_chars by assumption. cbv iota. rewrite last_is_digit_chars by assumption. cbn [negb].
   assert (Full : atoi_full bits sg ((if v <? 0 then [MINUS] else []) ++ chars_of ds) = Some v).
   { unfold atoi_full, atoi. destruct (Z.ltb_spec v 0) as [Hneg|Hpos].
     - cbn [app]. rewrite Z.eqb_refl.
